@@ -721,6 +721,8 @@ def roots(tier, seed):
             if tier != "quick":
                 r["last_level_kinds"] = THOROUGH_LAST
             out.append(r)
+    for k in CLASSES:
+        out.append(dict(kind="load-over", cls=k))
     return out
 
 
@@ -760,8 +762,64 @@ def _close_content(a, b):
     return a == b and type(a) is type(b) or (a == b and isinstance(a, (int, float)) and not isinstance(a, bool))
 
 
+def _load_over(root, ctx):
+    """Load a saved settings file into an object that already holds other content: afterwards the
+    object must hold exactly the file's content (nothing of what it held before may survive)."""
+    import json as _json
+    k = root["cls"]
+    tmp = tempfile.mkdtemp(prefix="hvmc-c15-")
+    try:
+        for before_attr, before_val, file_attr, file_val in LOAD_OVER_CASES:
+            src = CLS[k]()
+            if not hasattr(src, file_attr) or not hasattr(src, before_attr):
+                continue
+            setattr(src, file_attr, copy.deepcopy(file_val))
+            want = REF.normalise(src.attr_dict)
+            fname = os.path.join(tmp, "s.json")
+            src.save(fname)
+            for route in ("load", "load-twice"):
+                dst = CLS[k]()
+                setattr(dst, before_attr, copy.deepcopy(before_val))
+                dst.load(fname)
+                if route == "load-twice":
+                    dst.load(fname)
+                got = REF.normalise(dst.attr_dict)
+                ctx.count("states")
+                ctx.count("transitions")
+                ctx.count("validated")
+                ctx.count("load_over_cases")
+                if got != want:
+                    diff = sorted(a for a in set(got) | set(want) if got.get(a) != want.get(a))
+                    ctx.violation(f"C15:load-over-existing-content:{k}:{diff[0] if diff else '?'}:content-differs", root,
+                                  detail=dict(cls=k, held_before={before_attr: before_val}, file={file_attr: file_val},
+                                              route=route, differing=diff),
+                                  expected={a: want.get(a) for a in diff}, observed={a: got.get(a) for a in diff},
+                                  explanation="after load() the object does not hold exactly the file's content "
+                                              "(something it held before survived the load)")
+    finally:
+        shutil.rmtree(tmp, ignore_errors=True)
+
+
+LOAD_OVER_CASES = [
+    # (attribute held before, its value, attribute saved in the file, its value)
+    ("fft_settings", {"n": 4096, "norm": "ortho"}, "fft_settings", {"n": 8192}),
+    ("fft_settings", {"n": 4096, "norm": "ortho"}, "fft_settings", None),
+    ("fft_settings", {"n": 4096}, "fft_settings", {"norm": "ortho"}),
+    ("smoothing", dict(operator="parzen", bandwidth=0.5, center_frequencies_in_hz=[1.0, 2.0], extra_key=1),
+     "smoothing", dict(operator="konno_and_ohmachi", bandwidth=40, center_frequencies_in_hz=[3.0, 4.0, 5.0])),
+    ("window_type_and_width", ["tukey", 0.9], "window_type_and_width", ["tukey", 0.2]),
+    ("filter_corner_frequencies_in_hz", [1.0, 20.0], "filter_corner_frequencies_in_hz", [None, None]),
+    ("window_length_in_seconds", 30.0, "window_length_in_seconds", None),
+    ("orient_to_degrees_from_north", 40.0, "orient_to_degrees_from_north", None),
+    ("detrend", "constant", "detrend", None),
+]
+
+
 def run_root(root, ctx, tier):
     """Explore one root in a forked child so that nothing it does to class defaults survives."""
+    if root.get("kind") == "load-over":
+        _load_over(root, ctx)
+        return
     r, w = os.pipe()
     pid = os.fork()
     if pid == 0:
